@@ -7,7 +7,7 @@ From Coq Require Import ZArith NArith Bool List Permutation.
 Import ListNotations.
 Local Open Scope list_scope.
 Require Import FV.Base.Util FV.Base.F64 FV.Base.PyVal FV.C01.Model FV.C01.Lemmas FV.Gen.C10 FV.C10.Model FV.C10.Lemmas
-  FV.C10.Refuted.
+  FV.C10.LemmasConst FV.C10.Refuted.
 
 (* obligations on the facts regenerated from /repo (Gen/C10.v) *)
 Theorem C10_source_facts :
@@ -34,6 +34,8 @@ Theorem C10_source_facts :
   (* config.Param appends `value` AFTER the keyword overrides (param_dict); the length / character-set properties of
      the datatypes and their bounds (len_validate), `min* <= max*` also checked for them *)
   param_value_appended_after_overrides = true /\ string_isutf8_is_bool = true /\
+  (* Parameter.finish converts and exports a constant unguarded and makes the parameter readonly (finish_constant) *)
+  finish_converts_constant_unguarded = true /\
   length_datatypes_check_properties = true /\
   dt_length_props = [(c_string, k_minchars, 0, unlimited); (c_string, k_maxchars, 0, unlimited);
                      (c_blob, k_minbytes, 0, 16777216); (c_blob, k_maxbytes, 0, 16777216);
@@ -120,11 +122,55 @@ Theorem C10_limit_overrides_keep_conversion : forall en d u d',
   limits_only en = true -> configured_dt d u en = Some d' -> forall x, conv d' x = conv d x.
 Proof. exact limits_only_conv. Qed.
 
-(* later range checks use the datatype of the instance, which carries the configured limits: whatever it accepts lies in
-   its value set (C01 validate_sound) *)
-Theorem C10_later_range_checks_use_instance_limits : forall C c i p d x y,
-  mod_init C c = Created i -> In p (i_params i) -> p_dt p = Some d -> wf d -> valid d x = Ok y -> in_setb d y = true.
-Proof. intros C c i p d x y _ _ _ Hwf Hv. eapply validate_sound; [exact Hwf|left; reflexivity|exact Hv]. Qed.
+(* later range checks use the datatype of the instance, which carries the configured limits.  The instance datatype of a
+   configured parameter of a created module is d' = the CONFIGURED datatype of its entry, and its well-formedness (C01 wf:
+   min <= max, no NaN limits) is DERIVED, not assumed: the class-level datatype d is well formed (what the constructors of
+   frappy.datatypes guarantee), every accepted override of a float limit is a number (unl_float_notnan; the limits may
+   be inverted in between: Param(min=20, max=30) on FloatRange(0, 10)), and a created module has no inverted limits
+   (C10_inverted_limits_rejected, i.e. checkProperties).  Hence whatever `validate` of the instance datatype accepts
+   lies in the value set of the configured datatype (C01 validate_sound).  Not covered: min / max overrides of a
+   ScaledInteger leaf (scaled_limits_kept; the grid rounding of overridden scaled limits is C02's subject). *)
+Theorem C10_later_range_checks_use_instance_limits : forall C c i p d en,
+  mod_init C c = Created i -> In p (c_params C) -> p_optional p = false -> p_iscmd p = false -> p_dt p = Some d ->
+  assoc_str (p_name p) c = Some (CDict en) -> wf d -> scaled_limits_kept d en ->
+  exists p' d', In p' (i_params i) /\ p_name p' = p_name p /\ configured_dt d (p_unit p) en = Some d' /\
+    p_dt p' = Some d' /\ wf d' /\ forall x y, valid d' x = Ok y -> in_setb d' y = true.
+Proof.
+  intros C c i p d en H Hin Ho Hc Hd Hcfg Hwf Hs.
+  destruct (created_dt _ _ _ _ _ _ H Hin Ho Hc Hd Hcfg) as [p' [d' [A [B [D [E F]]]]]].
+  assert (W : wf d').
+  { apply lim_ok_wf; [eapply configured_lim; [apply wf_lim_ok; exact Hwf|exact Hs|exact E]|].
+    eapply no_inverted_limits; eassumption. }
+  exists p', d'. split; [exact A|]. split; [exact B|]. split; [exact E|]. split; [exact F|]. split; [exact W|].
+  intros x y Hv. eapply validate_sound; [exact W|left; reflexivity|exact Hv].
+Qed.
+
+(* ... in particular what the driver method of a configured parameter receives at start-up (C10_written_exactly_once)
+   lies in the value set of the configured datatype: inside the configured limits *)
+Theorem C10_start_up_write_within_configured_limits : forall C c i p d en v,
+  mod_init C c = Created i -> In p (c_params C) -> p_optional p = false -> p_iscmd p = false -> p_dt p = Some d ->
+  assoc_str (p_name p) c = Some (CDict en) -> NoDup (map fst en) -> In (k_value, v) en ->
+  NoDup (map p_name (active (c_params C))) -> p_has_write p = true -> wf d -> scaled_limits_kept d en ->
+  exists d', configured_dt d (p_unit p) en = Some d' /\
+    forall x, In x (writes_for (p_name p) (startup i)) -> in_setb d' x = true.
+Proof.
+  intros C c i p d en v H Hin Ho Hc Hd Hcfg ND Hv NDp Hw Hwf Hs.
+  destruct (configured_value_written _ _ _ _ _ _ _ H Hin Ho Hc Hd Hcfg ND Hv NDp Hw) as [p1 [d1 [_ [_ [E1 [_ W]]]]]].
+  destruct (C10_later_range_checks_use_instance_limits _ _ _ _ _ _ H Hin Ho Hc Hd Hcfg Hwf Hs) as [p2 [d2 [_ [_ [E2 [_ [_ V]]]]]]].
+  rewrite E1 in E2. inversion E2; subst d2. exists d1. split; [exact E1|].
+  intros x Hx. rewrite W in Hx. destruct (valid d1 v) as [y|] eqn:Ev; [|destruct Hx].
+  destruct (p_wfunc p); [|destruct Hx]. destruct Hx as [Hx|[]]. subst x. exact (V v y Ev).
+Qed.
+
+(* a configured `constant` (Param(constant=v), anywhere in the entry) of a created module is a value of the configured
+   datatype d'; the instance shows it in its transport form (Parameter.finish: datatype.export_value(datatype(v)), what
+   the description carries as "constant") and the parameter is readonly *)
+Theorem C10_constant_applied : forall C c i p d en v,
+  mod_init C c = Created i -> In p (c_params C) -> p_optional p = false -> p_iscmd p = false -> p_dt p = Some d ->
+  assoc_str (p_name p) c = Some (CDict en) -> NoDup (map fst en) -> In (k_constant, v) en ->
+  exists p' d' c1 j, In p' (i_params i) /\ p_name p' = p_name p /\ configured_dt d (p_unit p) en = Some d' /\
+    p_dt p' = Some d' /\ conv d' v = Ok c1 /\ dt_exp d' c1 = Some j /\ p_constant p' = Some j /\ p_readonly p' = true.
+Proof. intros; eapply constant_applied; eassumption. Qed.
 
 (* start-up: the poll thread first hands writeDict to the write methods, then initialReads, then the first polls; every
    write method receives its configured (validated) value exactly once - or, when the value does not validate or
@@ -213,6 +259,17 @@ Theorem C10_wrong_type_value_rejected : forall C c i p d en k v d' e,
   assoc_str (p_name p) c = Some (CDict en) -> mem_str k checked_value_props = true -> assoc_str k en = Some v ->
   configured_dt d (p_unit p) en = Some d' -> conv d' v = Err e -> mod_init C c <> Created i.
 Proof. intros; eapply wrong_type_rejected; eassumption. Qed.
+
+(* ... and for a `constant` (other than None) the rejection does not even go through the collected error list:
+   Parameter.finish converts the constant unguarded, the BadValueError leaves Module.__init__ - no instance, and no
+   ConfigError either (the node reports "error creating <module>" only).  This is why the third clause of
+   C10_error_list_names_every_collected_item can name `<p>.constant` only for Param(constant=None) *)
+Theorem C10_wrong_type_constant_leaves_init : forall C c p d en v d' e,
+  In p (c_params C) -> p_optional p = false -> p_iscmd p = false -> p_dt p = Some d ->
+  assoc_str (p_name p) c = Some (CDict en) -> NoDup (map fst en) -> In (k_constant, v) en -> v <> PNone ->
+  configured_dt d (p_unit p) en = Some d' -> conv d' v = Err e ->
+  (forall i, mod_init C c <> Created i) /\ (forall es, mod_init C c <> Rejected es).
+Proof. intros; eapply wrong_constant_leaves_init; eassumption. Qed.
 
 Theorem C10_missing_required_value_rejected : forall C c i p,
   In p (c_params C) -> p_optional p = false -> p_iscmd p = false -> p_needscfg p = true -> p_value p = None ->
@@ -362,6 +419,9 @@ Print Assumptions C10_value_applied.
 Print Assumptions C10_value_applied_idempotent.
 Print Assumptions C10_limit_overrides_keep_conversion.
 Print Assumptions C10_later_range_checks_use_instance_limits.
+Print Assumptions C10_start_up_write_within_configured_limits.
+Print Assumptions C10_constant_applied.
+Print Assumptions C10_wrong_type_constant_leaves_init.
 Print Assumptions C10_written_once_before_poll.
 Print Assumptions C10_written_exactly_once.
 Print Assumptions C10_configured_value_written_exactly_once.
